@@ -202,11 +202,13 @@ def chunks : Nat → Nat → List Rat → List (List Rat)
 def applyDims (dims : List Rat) (row : List Rat) : List Rat :=
   if dims.isEmpty then row else List.zipWith (· * ·) row dims
 
-/-- shape arithmetic of `Import_Table`: `rows = lines − ignored` (unsigned; `lines ≤ ignored` is
-    a division by zero or a wrap: outside the model), `columns = tokens / rows`, dimension guard,
-    sequential fill, per-column factor -/
+/-- shape arithmetic of `Import_Table`: `rows = lines − ignored` (unsigned; `lines < ignored` wraps:
+    outside the model); no line left after the ignored ones is an empty table (5eb5000; it was a
+    division by zero before); otherwise `columns = tokens / rows`, dimension guard, sequential fill,
+    per-column factor -/
 def importCore (nLines : Nat) (vals : List Rat) (dims : List Rat) (ignored : Nat) : Except Err (List (List Rat)) :=
-  if nLines ≤ ignored then .error .undef
+  if nLines < ignored then .error .undef
+  else if nLines = ignored then .ok []
   else
     let rows := nLines - ignored
     let cols := vals.length / rows
@@ -294,19 +296,28 @@ def numericStart (t : List Char) : Bool :=
   | [] => false
   | c :: _ => c = '+' ∨ c = '-' ∨ c = '.' ∨ ('0' ≤ c ∧ c ≤ '9')
 
-/-- largest finite double, smallest subnormal -/
+/-- The range of the numbers `Import_*` reads. After 5c3fb95 the token is extracted into a `long double`
+    (`long double x; inputfile >> x`) and the quotient `value/dimension` is formed and written as a
+    `long double`: on x86-64 (g++ and clang++) that is the x87 80-bit format — largest finite value
+    `(1 − 2⁻⁶⁴)·2¹⁶³⁸⁴`, smallest subnormal `2⁻¹⁶⁴⁴⁵`.  On a platform where `long double` is `double`
+    the repair is a no-op and the range is the old one (`2¹⁰²⁴ − 2⁹⁷¹`, `2⁻¹⁰⁷⁴`): listed in ASSUMPTIONS. -/
+def ldMax : Rat := (2 ^ 16384 - 2 ^ 16320 : Int)
+def ldTiny : Rat := 1 / 2 ^ 16445
+
+/-- the finite `double` range (before 5c3fb95 a quotient beyond it was written as `inf`, which the reader
+    does not accept) -/
 def dblMax : Rat := (2 ^ 1024 - 2 ^ 971 : Int)
 def dblTiny : Rat := 1 / 2 ^ 1074
 
 /-- `while(inputfile >> x)` on characters.  A token that starts like a number but is not a
-    complete decimal (`1.5abc`, `1e`), or a value outside the finite double range, is a stream
+    complete decimal (`1.5abc`, `1e`), or a value outside the finite `long double` range, is a stream
     corner case outside the model. -/
 def readAllC : List (List Char) → Except Err (List Rat)
   | [] => .ok []
   | t :: r =>
     match parseDec t with
     | some v =>
-      if rabs v > dblMax ∨ (v ≠ 0 ∧ rabs v < dblTiny) then .error .undef
+      if rabs v > ldMax ∨ (v ≠ 0 ∧ rabs v < ldTiny) then .error .undef
       else do let vs ← readAllC r; pure (v :: vs)
     | none => if numericStart t then .error .undef else .ok []
 
